@@ -1,1 +1,679 @@
-pub fn selftest() -> bool { true }
+//! Independent glyf/loca codec: glyph AST, writer with random encoding choices, reader, and the
+//! TrueType contour model (implied on-curve points, closed sub-paths).
+
+use super::{be16, bei16, W};
+use crate::rt::Rng;
+
+#[derive(Copy, Clone, Debug, PartialEq, Eq, Hash)]
+pub struct Pt {
+    pub x: i16,
+    pub y: i16,
+    pub on: bool,
+}
+
+#[derive(Clone, Debug, PartialEq, Default)]
+pub struct Simple {
+    pub contours: Vec<Vec<Pt>>,
+    pub instructions: Vec<u8>,
+    pub overlap: bool,
+}
+
+#[derive(Copy, Clone, Debug, PartialEq)]
+pub enum Scale {
+    None,
+    Uniform(i16),
+    XY(i16, i16),
+    /// xscale, scale01, scale10, yscale (file order), raw F2Dot14
+    Matrix(i16, i16, i16, i16),
+}
+
+#[derive(Copy, Clone, Debug, PartialEq)]
+pub enum Args {
+    XY(i16, i16),
+    Points(u16, u16),
+}
+
+#[derive(Clone, Debug, PartialEq)]
+pub struct Component {
+    pub gid: u16,
+    pub args: Args,
+    pub scale: Scale,
+    /// extra flag bits: ROUND_XY_TO_GRID 0x4, USE_MY_METRICS 0x200, OVERLAP_COMPOUND 0x400,
+    /// SCALED_COMPONENT_OFFSET 0x800, UNSCALED_COMPONENT_OFFSET 0x1000
+    pub extra_flags: u16,
+    pub force_words: bool,
+}
+
+#[derive(Clone, Debug, PartialEq, Default)]
+pub struct Composite {
+    pub components: Vec<Component>,
+    pub instructions: Vec<u8>,
+}
+
+#[derive(Clone, Debug, PartialEq)]
+pub enum Glyph {
+    Empty,
+    Simple(Simple),
+    Composite(Composite),
+}
+
+#[derive(Copy, Clone, Debug, PartialEq, Eq)]
+pub struct BBox {
+    pub x_min: i16,
+    pub y_min: i16,
+    pub x_max: i16,
+    pub y_max: i16,
+}
+
+impl Simple {
+    pub fn points(&self) -> impl Iterator<Item = &Pt> {
+        self.contours.iter().flat_map(|c| c.iter())
+    }
+    pub fn num_points(&self) -> usize {
+        self.contours.iter().map(|c| c.len()).sum()
+    }
+    pub fn bbox(&self) -> BBox {
+        let mut b = BBox { x_min: i16::MAX, y_min: i16::MAX, x_max: i16::MIN, y_max: i16::MIN };
+        let mut any = false;
+        for p in self.points() {
+            any = true;
+            b.x_min = b.x_min.min(p.x);
+            b.x_max = b.x_max.max(p.x);
+            b.y_min = b.y_min.min(p.y);
+            b.y_max = b.y_max.max(p.y);
+        }
+        if any {
+            b
+        } else {
+            BBox { x_min: 0, y_min: 0, x_max: 0, y_max: 0 }
+        }
+    }
+}
+
+/// Encoding choices for the packed flag/coordinate streams.
+#[derive(Clone, Debug)]
+pub struct EncChoice {
+    /// probability (in 1/8) of using a repeat run when flags repeat
+    pub repeat: u32,
+    /// probability (in 1/8) of using the long form where the short form would fit
+    pub long: u32,
+    /// probability (in 1/8) of writing a zero delta explicitly instead of "same"
+    pub explicit_zero: u32,
+}
+impl EncChoice {
+    pub fn random(rng: &mut Rng) -> EncChoice {
+        EncChoice { repeat: rng.below(9) as u32, long: rng.below(9) as u32, explicit_zero: rng.below(9) as u32 }
+    }
+    pub fn compact() -> EncChoice {
+        EncChoice { repeat: 8, long: 0, explicit_zero: 0 }
+    }
+}
+
+pub fn write_simple(g: &Simple, bbox: BBox, rng: &mut Rng, enc: &EncChoice) -> Vec<u8> {
+    let mut w = W::new();
+    w.i16(g.contours.len() as i16).i16(bbox.x_min).i16(bbox.y_min).i16(bbox.x_max).i16(bbox.y_max);
+    let mut end = 0usize;
+    for c in &g.contours {
+        end += c.len();
+        w.u16((end - 1) as u16);
+    }
+    w.u16(g.instructions.len() as u16);
+    w.bytes(&g.instructions);
+    // per point: flag + x bytes + y bytes
+    let pts: Vec<Pt> = g.points().copied().collect();
+    let mut flags: Vec<u8> = Vec::with_capacity(pts.len());
+    let mut xs = W::new();
+    let mut ys = W::new();
+    let (mut px, mut py) = (0i32, 0i32);
+    for (i, p) in pts.iter().enumerate() {
+        let mut f = if p.on { 1u8 } else { 0 };
+        if i == 0 && g.overlap {
+            f |= 0x40;
+        }
+        let dx = p.x as i32 - px;
+        let dy = p.y as i32 - py;
+        px = p.x as i32;
+        py = p.y as i32;
+        // deltas beyond i16 cannot be encoded: the generator keeps |delta| <= 32767 by construction
+        let mut coord = |d: i32, short_bit: u8, same_bit: u8, out: &mut W, f: &mut u8| {
+            if d == 0 && !rng.chance(enc.explicit_zero, 8) {
+                *f |= same_bit;
+            } else if d.abs() <= 255 && !rng.chance(enc.long, 8) {
+                *f |= short_bit;
+                if d > 0 || (d == 0 && rng.bool()) {
+                    *f |= same_bit;
+                }
+                out.u8(d.unsigned_abs() as u8);
+            } else {
+                out.i16(d as i16);
+            }
+        };
+        coord(dx, 0x02, 0x10, &mut xs, &mut f);
+        coord(dy, 0x04, 0x20, &mut ys, &mut f);
+        flags.push(f);
+    }
+    // flag stream with optional repeat runs (runs may cross contour boundaries)
+    let mut i = 0;
+    while i < flags.len() {
+        let f = flags[i];
+        let mut run = 1;
+        while i + run < flags.len() && flags[i + run] == f && run < 256 {
+            run += 1;
+        }
+        if run >= 2 && rng.chance(enc.repeat, 8) {
+            let take = if rng.bool() { run } else { 2 + rng.below(run - 1) };
+            w.u8(f | 0x08).u8((take - 1) as u8);
+            i += take;
+        } else {
+            w.u8(f);
+            i += 1;
+        }
+    }
+    w.bytes(&xs.b).bytes(&ys.b);
+    w.b
+}
+
+pub fn write_composite(g: &Composite, bbox: BBox) -> Vec<u8> {
+    let mut w = W::new();
+    w.i16(-1).i16(bbox.x_min).i16(bbox.y_min).i16(bbox.x_max).i16(bbox.y_max);
+    let n = g.components.len();
+    for (i, c) in g.components.iter().enumerate() {
+        let mut flags = c.extra_flags & (0x4 | 0x200 | 0x400 | 0x800 | 0x1000);
+        let (a1, a2, words) = match c.args {
+            Args::XY(x, y) => {
+                flags |= 0x2;
+                let words = c.force_words || !(-128..=127).contains(&x) || !(-128..=127).contains(&y);
+                (x as i32, y as i32, words)
+            }
+            Args::Points(p, q) => (p as i32, q as i32, c.force_words || p > 255 || q > 255),
+        };
+        if words {
+            flags |= 0x1;
+        }
+        match c.scale {
+            Scale::None => {}
+            Scale::Uniform(_) => flags |= 0x8,
+            Scale::XY(..) => flags |= 0x40,
+            Scale::Matrix(..) => flags |= 0x80,
+        }
+        if i + 1 < n {
+            flags |= 0x20;
+        } else if !g.instructions.is_empty() {
+            flags |= 0x100;
+        }
+        w.u16(flags).u16(c.gid);
+        if words {
+            w.u16(a1 as u16).u16(a2 as u16);
+        } else {
+            w.u8(a1 as u8).u8(a2 as u8);
+        }
+        match c.scale {
+            Scale::None => {}
+            Scale::Uniform(s) => {
+                w.i16(s);
+            }
+            Scale::XY(x, y) => {
+                w.i16(x).i16(y);
+            }
+            Scale::Matrix(a, b, c2, d) => {
+                w.i16(a).i16(b).i16(c2).i16(d);
+            }
+        }
+    }
+    if !g.instructions.is_empty() {
+        w.u16(g.instructions.len() as u16).bytes(&g.instructions);
+    }
+    w.b
+}
+
+/// Parse one glyph record (independent reader). Returns glyph + stored bbox.
+pub fn read_glyph(d: &[u8]) -> Option<(Glyph, BBox)> {
+    if d.is_empty() {
+        return Some((Glyph::Empty, BBox { x_min: 0, y_min: 0, x_max: 0, y_max: 0 }));
+    }
+    let nc = bei16(d, 0)?;
+    let bbox = BBox { x_min: bei16(d, 2)?, y_min: bei16(d, 4)?, x_max: bei16(d, 6)?, y_max: bei16(d, 8)? };
+    if nc >= 0 {
+        let nc = nc as usize;
+        let mut ends = Vec::new();
+        for i in 0..nc {
+            ends.push(be16(d, 10 + 2 * i)? as usize);
+        }
+        let mut o = 10 + 2 * nc;
+        let ilen = be16(d, o)? as usize;
+        o += 2;
+        let instructions = d.get(o..o + ilen)?.to_vec();
+        o += ilen;
+        let npts = ends.last().map_or(0, |e| e + 1);
+        let mut flags = Vec::with_capacity(npts);
+        while flags.len() < npts {
+            let f = *d.get(o)?;
+            o += 1;
+            flags.push(f);
+            if f & 0x08 != 0 {
+                let r = *d.get(o)? as usize;
+                o += 1;
+                for _ in 0..r {
+                    if flags.len() < npts {
+                        flags.push(f);
+                    }
+                }
+            }
+        }
+        let mut xs = Vec::with_capacity(npts);
+        let mut x = 0i32;
+        for &f in &flags {
+            if f & 0x02 != 0 {
+                let v = *d.get(o)? as i32;
+                o += 1;
+                x += if f & 0x10 != 0 { v } else { -v };
+            } else if f & 0x10 == 0 {
+                x += bei16(d, o)? as i32;
+                o += 2;
+            }
+            xs.push(x as i16);
+        }
+        let mut ys = Vec::with_capacity(npts);
+        let mut y = 0i32;
+        for &f in &flags {
+            if f & 0x04 != 0 {
+                let v = *d.get(o)? as i32;
+                o += 1;
+                y += if f & 0x20 != 0 { v } else { -v };
+            } else if f & 0x20 == 0 {
+                y += bei16(d, o)? as i32;
+                o += 2;
+            }
+            ys.push(y as i16);
+        }
+        let mut contours = Vec::new();
+        let mut start = 0;
+        for &e in &ends {
+            if e + 1 < start {
+                return None;
+            }
+            let mut c = Vec::new();
+            for i in start..=e {
+                c.push(Pt { x: xs[i], y: ys[i], on: flags[i] & 1 != 0 });
+            }
+            contours.push(c);
+            start = e + 1;
+        }
+        let overlap = flags.first().map_or(false, |f| f & 0x40 != 0);
+        Some((Glyph::Simple(Simple { contours, instructions, overlap }), bbox))
+    } else {
+        let mut o = 10;
+        let mut components = Vec::new();
+        let mut have_instr = false;
+        loop {
+            let flags = be16(d, o)?;
+            let gid = be16(d, o + 2)?;
+            o += 4;
+            let (a1, a2);
+            if flags & 1 != 0 {
+                a1 = be16(d, o)?;
+                a2 = be16(d, o + 2)?;
+                o += 4;
+            } else {
+                a1 = *d.get(o)? as u16;
+                a2 = *d.get(o + 1)? as u16;
+                o += 2;
+            }
+            let args = if flags & 2 != 0 {
+                if flags & 1 != 0 {
+                    Args::XY(a1 as i16, a2 as i16)
+                } else {
+                    Args::XY(a1 as u8 as i8 as i16, a2 as u8 as i8 as i16)
+                }
+            } else {
+                Args::Points(a1, a2)
+            };
+            let scale = if flags & 0x8 != 0 {
+                let s = bei16(d, o)?;
+                o += 2;
+                Scale::Uniform(s)
+            } else if flags & 0x40 != 0 {
+                let s = Scale::XY(bei16(d, o)?, bei16(d, o + 2)?);
+                o += 4;
+                s
+            } else if flags & 0x80 != 0 {
+                let s = Scale::Matrix(bei16(d, o)?, bei16(d, o + 2)?, bei16(d, o + 4)?, bei16(d, o + 6)?);
+                o += 8;
+                s
+            } else {
+                Scale::None
+            };
+            if flags & 0x100 != 0 {
+                have_instr = true;
+            }
+            components.push(Component { gid, args, scale, extra_flags: flags & (0x4 | 0x200 | 0x400 | 0x800 | 0x1000), force_words: flags & 1 != 0 });
+            if flags & 0x20 == 0 {
+                break;
+            }
+        }
+        let instructions = if have_instr {
+            let n = be16(d, o)? as usize;
+            d.get(o + 2..o + 2 + n)?.to_vec()
+        } else {
+            Vec::new()
+        };
+        Some((Glyph::Composite(Composite { components, instructions }), bbox))
+    }
+}
+
+/// loca reader: offsets (numGlyphs + 1), or None when malformed.
+pub fn read_loca(loca: &[u8], num_glyphs: usize, long: bool) -> Option<Vec<u32>> {
+    (0..=num_glyphs)
+        .map(|i| if long { super::be32(loca, 4 * i) } else { be16(loca, 2 * i).map(|v| v as u32 * 2) })
+        .collect()
+}
+
+/// Build glyf + loca from already-serialised glyph records.
+pub fn build_glyf_loca(records: &[Vec<u8>], force_long: bool, pad4: bool) -> (Vec<u8>, Vec<u8>, bool) {
+    let mut glyf = W::new();
+    let mut offs = vec![0u32];
+    for r in records {
+        glyf.bytes(r);
+        let align = if pad4 { 4 } else { 2 };
+        while glyf.len() % align != 0 {
+            glyf.u8(0);
+        }
+        offs.push(glyf.len() as u32);
+    }
+    let long = force_long || *offs.last().unwrap() > 0x1FFFE;
+    let mut loca = W::new();
+    for o in &offs {
+        if long {
+            loca.u32(*o);
+        } else {
+            loca.u16((*o / 2) as u16);
+        }
+    }
+    (glyf.b, loca.b, long)
+}
+
+// ---- contour model ------------------------------------------------------------------------------
+
+#[derive(Copy, Clone, Debug, PartialEq)]
+pub enum Seg {
+    Line { to: (f64, f64) },
+    Quad { ctrl: (f64, f64), to: (f64, f64) },
+    Cubic { c1: (f64, f64), c2: (f64, f64), to: (f64, f64) },
+}
+impl Seg {
+    pub fn to(&self) -> (f64, f64) {
+        match *self {
+            Seg::Line { to } | Seg::Quad { to, .. } | Seg::Cubic { to, .. } => to,
+        }
+    }
+}
+
+/// A closed sub-path: start point + segments; the last segment ends at the start point.
+#[derive(Clone, Debug, PartialEq)]
+pub struct SubPath {
+    pub start: (f64, f64),
+    pub segs: Vec<Seg>,
+}
+
+/// TrueType semantics of one contour: closed path through the points in order, with an implied
+/// on-curve midpoint between consecutive off-curve points (cyclically). The start is some on-curve
+/// (real or implied) point; comparison with an implementation is modulo rotation.
+pub fn contour_path(c: &[Pt]) -> Option<SubPath> {
+    if c.is_empty() {
+        return None;
+    }
+    let n = c.len();
+    let f = |p: &Pt| (p.x as f64, p.y as f64);
+    // expanded cyclic list of (point, on)
+    let mut ex: Vec<((f64, f64), bool)> = Vec::new();
+    for i in 0..n {
+        let p = &c[i];
+        ex.push((f(p), p.on));
+        let q = &c[(i + 1) % n];
+        if !p.on && !q.on {
+            let (a, b) = (f(p), f(q));
+            ex.push((((a.0 + b.0) / 2.0, (a.1 + b.1) / 2.0), true));
+        }
+    }
+    let s = ex.iter().position(|e| e.1)?;
+    let m = ex.len();
+    let start = ex[s].0;
+    let mut segs = Vec::new();
+    let mut i = 1;
+    while i <= m {
+        let (p, on) = ex[(s + i) % m];
+        if on {
+            segs.push(Seg::Line { to: p });
+            i += 1;
+        } else {
+            let (q, _) = ex[(s + i + 1) % m];
+            segs.push(Seg::Quad { ctrl: p, to: q });
+            i += 2;
+        }
+    }
+    Some(SubPath { start, segs })
+}
+
+/// `tol` is an ABSOLUTE tolerance (callers scale it by the magnitude of the coordinates involved,
+/// including intermediate ones, so that cancellation in f32 arithmetic is not mistaken for a defect).
+fn close_pts(a: (f64, f64), b: (f64, f64), tol: f64) -> bool {
+    (a.0 - b.0).abs() <= tol && (a.1 - b.1).abs() <= tol
+}
+
+pub fn max_abs(p: &SubPath) -> f64 {
+    let mut m = p.start.0.abs().max(p.start.1.abs());
+    for s in &p.segs {
+        let pts: Vec<(f64, f64)> = match *s {
+            Seg::Line { to } => vec![to],
+            Seg::Quad { ctrl, to } => vec![ctrl, to],
+            Seg::Cubic { c1, c2, to } => vec![c1, c2, to],
+        };
+        for q in pts {
+            m = m.max(q.0.abs()).max(q.1.abs());
+        }
+    }
+    m
+}
+
+fn seg_close(a: &Seg, b: &Seg, tol: f64) -> bool {
+    match (a, b) {
+        (Seg::Line { to: x }, Seg::Line { to: y }) => close_pts(*x, *y, tol),
+        (Seg::Quad { ctrl: c, to: x }, Seg::Quad { ctrl: d, to: y }) => close_pts(*c, *d, tol) && close_pts(*x, *y, tol),
+        (Seg::Cubic { c1, c2, to }, Seg::Cubic { c1: d1, c2: d2, to: t2 }) => close_pts(*c1, *d1, tol) && close_pts(*c2, *d2, tol) && close_pts(*to, *t2, tol),
+        _ => false,
+    }
+}
+
+/// Normal form for cyclic comparison: drop zero-length lines, make the path explicitly closed.
+pub fn normalise(p: &SubPath, _tol: f64) -> Vec<((f64, f64), Seg)> {
+    // zero-length lines (duplicate points) are dropped by EXACT equality: the same input point
+    // always maps to the same output value on either side
+    let mut out: Vec<((f64, f64), Seg)> = Vec::new();
+    let mut cur = p.start;
+    for s in &p.segs {
+        let keep = match s {
+            Seg::Line { to } => cur != *to,
+            _ => true,
+        };
+        if keep {
+            out.push((cur, *s));
+        }
+        cur = s.to();
+    }
+    if cur != p.start {
+        out.push((cur, Seg::Line { to: p.start }));
+    }
+    out
+}
+
+/// Length (Chebyshev) of the shortest non-degenerate segment of the normalised path.
+pub fn min_feature(p: &SubPath) -> f64 {
+    // over the RAW segments: points that coincide only after a collapsing transform count as a
+    // zero-size feature (f32 and f64 evaluation may or may not keep them apart)
+    let mut m = f64::INFINITY;
+    let mut from = p.start;
+    for s in &p.segs {
+        let to = s.to();
+        m = m.min((from.0 - to.0).abs().max((from.1 - to.1).abs()));
+        if let Seg::Quad { ctrl, .. } = s {
+            m = m.min((from.0 - ctrl.0).abs().max((from.1 - ctrl.1).abs()));
+        }
+        from = to;
+    }
+    m
+}
+
+/// Equality of two closed sub-paths modulo the choice of starting point.
+pub fn same_cycle(a: &SubPath, b: &SubPath, tol: f64) -> bool {
+    let (na, nb) = (normalise(a, tol), normalise(b, tol));
+    if na.len() != nb.len() {
+        return false;
+    }
+    if na.is_empty() {
+        return close_pts(a.start, b.start, tol);
+    }
+    let n = na.len();
+    'rot: for r in 0..n {
+        for i in 0..n {
+            let (fa, sa) = &na[i];
+            let (fb, sb) = &nb[(i + r) % n];
+            if !close_pts(*fa, *fb, tol) || !seg_close(sa, sb, tol) {
+                continue 'rot;
+            }
+        }
+        return true;
+    }
+    false
+}
+
+/// Affine map of a sub-path: p' = M p + t with M = [[a, c], [b, d]] i.e. x' = a x + c y + tx, y' = b x + d y + ty.
+pub fn transform_path(p: &SubPath, m: (f64, f64, f64, f64), t: (f64, f64)) -> SubPath {
+    let (a, b, c, d) = m;
+    let f = |q: (f64, f64)| (a * q.0 + c * q.1 + t.0, b * q.0 + d * q.1 + t.1);
+    SubPath {
+        start: f(p.start),
+        segs: p
+            .segs
+            .iter()
+            .map(|s| match *s {
+                Seg::Line { to } => Seg::Line { to: f(to) },
+                Seg::Quad { ctrl, to } => Seg::Quad { ctrl: f(ctrl), to: f(to) },
+                Seg::Cubic { c1, c2, to } => Seg::Cubic { c1: f(c1), c2: f(c2), to: f(to) },
+            })
+            .collect(),
+    }
+}
+
+pub fn f2dot14(v: i16) -> f64 {
+    v as f64 / 16384.0
+}
+
+/// (a, b, c, d) = (xscale, scale01, scale10, yscale) of a component.
+pub fn scale_matrix(s: Scale) -> (f64, f64, f64, f64) {
+    match s {
+        Scale::None => (1.0, 0.0, 0.0, 1.0),
+        Scale::Uniform(v) => (f2dot14(v), 0.0, 0.0, f2dot14(v)),
+        Scale::XY(x, y) => (f2dot14(x), 0.0, 0.0, f2dot14(y)),
+        Scale::Matrix(a, b, c, d) => (f2dot14(a), f2dot14(b), f2dot14(c), f2dot14(d)),
+    }
+}
+
+// ---- generators -----------------------------------------------------------------------------------
+
+pub fn gen_simple(rng: &mut Rng, max_contours: usize, max_points: usize, coord_range: i32) -> Simple {
+    let nc = rng.below(max_contours + 1);
+    let mut contours = Vec::new();
+    let (mut px, mut py) = (0i32, 0i32);
+    for _ in 0..nc {
+        let np = 1 + rng.small(max_points - 1);
+        let pattern = rng.below(7);
+        let mut c = Vec::new();
+        for i in 0..np {
+            // keep successive deltas within i16
+            let step = |rng: &mut Rng, p: i32| -> i32 {
+                let d = match rng.below(5) {
+                    0 => 0,
+                    1 => rng.range(-255, 255) as i32,
+                    2 => rng.range(-300, 300) as i32,
+                    _ => rng.range(-(coord_range as i64), coord_range as i64) as i32,
+                };
+                let q = (p + d).clamp(-coord_range, coord_range);
+                if (q - p).abs() > 32767 {
+                    p
+                } else {
+                    q
+                }
+            };
+            px = step(rng, px);
+            py = step(rng, py);
+            let on = match pattern {
+                0 => true,
+                1 => false,
+                2 => i != 0,             // first off
+                3 => i + 1 != np,        // last off
+                4 => i != 0 && i + 1 != np, // first and last off
+                5 => i % 3 == 0,         // runs of off-curve points
+                _ => rng.bool(),
+            };
+            c.push(Pt { x: px as i16, y: py as i16, on });
+        }
+        contours.push(c);
+    }
+    let ilen = if rng.chance(1, 4) { rng.below(20) } else { 0 };
+    let overlap = rng.chance(1, 8) && !contours.is_empty();
+    Simple { contours, instructions: rng.bytes(ilen), overlap }
+}
+
+pub fn selftest() -> bool {
+    let mut rng = Rng::new(99);
+    let mut ok = true;
+    for _ in 0..500 {
+        let range = if rng.bool() { 2000 } else { 16000 };
+        let g = gen_simple(&mut rng, 6, 30, range);
+        let enc = EncChoice::random(&mut rng);
+        let bytes = write_simple(&g, g.bbox(), &mut rng, &enc);
+        match read_glyph(&bytes) {
+            Some((Glyph::Simple(h), bb)) => {
+                if h != g || bb != g.bbox() {
+                    eprintln!("glyf selftest: simple glyph round trip differs");
+                    ok = false;
+                }
+            }
+            other => {
+                if !(g.contours.is_empty() && matches!(other, Some((Glyph::Simple(_), _)))) {
+                    eprintln!("glyf selftest: simple glyph did not parse");
+                    ok = false;
+                }
+            }
+        }
+    }
+    let c = Composite {
+        components: vec![
+            Component { gid: 3, args: Args::XY(-5, 300), scale: Scale::Matrix(100, -200, 300, 16384), extra_flags: 0x200, force_words: false },
+            Component { gid: 4, args: Args::XY(1, 2), scale: Scale::None, extra_flags: 0, force_words: false },
+        ],
+        instructions: vec![1, 2, 3],
+    };
+    let bb = BBox { x_min: -1, y_min: -2, x_max: 3, y_max: 4 };
+    match read_glyph(&write_composite(&c, bb)) {
+        Some((Glyph::Composite(mut d), b2)) => {
+            // force_words is an encoding choice, not content
+            for (x, y) in d.components.iter_mut().zip(c.components.iter()) {
+                x.force_words = y.force_words;
+            }
+            ok &= d == c && b2 == bb;
+        }
+        _ => ok = false,
+    }
+    // model: square with one off-curve corner
+    let sq = [Pt { x: 0, y: 0, on: true }, Pt { x: 10, y: 0, on: false }, Pt { x: 10, y: 10, on: true }];
+    let p = contour_path(&sq).unwrap();
+    ok &= p.segs.len() == 2;
+    let alloff = [Pt { x: 0, y: 0, on: false }, Pt { x: 10, y: 0, on: false }];
+    let p = contour_path(&alloff).unwrap();
+    ok &= p.start == (5.0, 0.0) && p.segs.len() == 2;
+    if !ok {
+        eprintln!("glyf selftest FAILED");
+    }
+    ok
+}
